@@ -310,9 +310,10 @@ def padding_rule(F, G, rep):
 def bracketing_rule(F, G, rep, M, pid_rule="bracketing"):
     b, m, arms = events.find_dispatch(F)
     op, cl = bracket.openers_closers(F, G)
+    n_op_fns = len(op)          # functions pushing onto frames.id: a helper, or parse_event itself when the push is written in the arms
     op.discard(PE)
     cl.discard(PE)
-    rep.floor("frame openers", len(op), 1)
+    rep.floor("frame openers", n_op_fns, 1)
     rep.floor("frame closers", len(cl), 1)
     n_sites = 0
     for nm, arm in sorted(arms.items()):
@@ -347,7 +348,8 @@ def bracketing_rule(F, G, rep, M, pid_rule="bracketing"):
                    "without its own row shifts every later row" % (M.class_name(v), sorted(out)))
     rep.counts[pid_rule + ".arm_x_class"] = len(arms) * len(M.classes)
     # call sites of openers inside the dispatch
-    n_open = sum(1 for a in arms.values() for x in tir.walk(a["body"]) if x.get("k") in ("Call", "MethodCall") and reach.owner_of(callee(x) or "") in op)
+    n_open = sum(1 for a in arms.values() for x in tir.walk(a["body"]) if x.get("k") in ("Call", "MethodCall") and (
+        reach.owner_of(callee(x) or "") in op or (x.get("k") == "MethodCall" and x["method"] == "push" and (tir.place(x["recv"]) or "").endswith("frames.id"))))
     rep.floor("frame_open call sites in the dispatch", n_open, 2)
     # read(): a dangling pre-3.0 frame is closed before the game is built
     rb = F.body("io::slippi::de::read")
@@ -419,6 +421,32 @@ def items_rule(F, G, rep):
                     callers.append(fb["path"])
         in_arm = [x for x in tir.walk(arms[ev]["body"]) if x.get("k") == "MethodCall" and (declared(x) or "") == "frame::mutable::%s::read_push" % s]
         ok = len(in_arm) == 1 and callers == [PE]
+        if len(in_arm) == 1:
+            # .. on every path through the arm: the only condition it may sit under is the presence of its own column
+            import safety
+            import canon
+            parents = safety.parents(arms[ev]["body"])
+            recv_ids = set(x.get("id") for x in tir.walk(in_arm[0]["recv"]) if x.get("k") == "Path" and x.get("res") == "local")
+            bad = []
+            y = in_arm[0]
+            while id(y) in parents:
+                p = parents[id(y)]
+                pats = None
+                if p.get("k") == "If" and p.get("cond") is not y:
+                    c = strip(p["cond"])
+                    pats = [c["pat"]] if c.get("k") == "LetCond" else []
+                elif p.get("k") == "Match" and p.get("scrut") is not y:
+                    pats = [arm_["pat"] for arm_ in p["arms"] if any(z is y for z in tir.walk(arm_["body"]))]
+                if pats is not None:
+                    binds = []
+                    for q in pats:
+                        canon.binding_pats(q, binds)
+                    if not any(bp.get("id") in recv_ids for bp in binds):
+                        bad.append(p)
+                y = p
+            rep.ob("rows.unconditional", not bad, PE + "#" + ev, s + ".condition",
+                   "%s::read_push in the %s arm is under a condition other than the presence of its own column (%s): some events of that kind would store no row" % (
+                       s, ev, "; ".join(tir.pretty(x.get("cond") or x.get("scrut"))[:50] for x in bad)), tir.sp(in_arm[0]))
         rep.ob("rows.one-per-event", ok, PE + "#" + ev, s, "%s::read_push must be called exactly once, from the %s arm only (callers: %s, in arm: %d)" % (s, ev, callers, len(in_arm)))
     # both row views slice items by start_end(i): C13's rule, counted here as a reference
     for fam in ("mutable", "immutable"):
@@ -437,6 +465,11 @@ def structure_rules(F, G, rep, M):
     padding_rule(F, G, rep)
     bracketing_rule(F, G, rep, M)
     items_rule(F, G, rep)
+    # the walkers above resolve `version.gte(M, m)` / `version.lt(M, m)` by their specification: that is what the functions
+    # compute (E5), or every "simulate Frame End below 3.0" gate means something else
+    if not any(k.startswith("E5.gte") for k in rep.counts):
+        import order
+        order.rule_gte(F, rep)
 
 
 def run(F, rep, tier):
